@@ -179,6 +179,12 @@ def run_xoracle(impl_out):
         if len(t) == 3: res.setdefault(t[0], []).append((int(t[1]), t[2]))
     return res
 
+def unhex(t):
+    """tolerant: output cut short by a sanitizer abort may end in half a byte"""
+    if t in ('x', '-'): return b''
+    t = ''.join(ch for ch in t if ch in '0123456789abcdefABCDEF')
+    return bytes.fromhex(t[:len(t) // 2 * 2])
+
 class Block:
     __slots__ = ('op', 'acts', 'status', 'fault', 'kv', 'expect')
     def __init__(self, op):
@@ -188,7 +194,8 @@ class Block:
         for a in self.acts:
             if a.startswith('send '):
                 t = a.split()
-                r.append((int(t[1]), t[2] != 'x', bytes.fromhex(t[-1]) if t[-1] != 'x' else b''))
+                try: r.append((int(t[1]), t[2] != 'x', unhex(t[-1])))
+                except (ValueError, IndexError): pass
         return r
 
 def parse_out(path):
